@@ -17,14 +17,30 @@ open AY.C15W (filterNode_flags)
 
 /-! ### flags of the merged node -/
 
+/-- one of the three flag combinations of `_replace_self` / `_replace_other` -/
+def BaseOfMerge (s o g : Flags) : Prop :=
+  g = replaceOtherFlags s o ∨ g = replaceSelfFlags s o ∨ g = replaceOtherFlags o s
+
+/-- … possibly with `_safe = False` on top (a promoted node that was unsafe) -/
 def FlagsOfMerge (s o r : Flags) : Prop :=
-  r = replaceOtherFlags s o ∨ r = replaceSelfFlags s o ∨ r = replaceOtherFlags o s
+  ∃ g, BaseOfMerge s o g ∧ (r = g ∨ r = { g with safe := some false })
+
+theorem promoted_cases (g of : Flags) : promotedFlags g of = g ∨ promotedFlags g of = { g with safe := some false } := by
+  unfold promotedFlags; split
+  · exact .inl rfl
+  · exact .inr rfl
+
+theorem maybePromote_flags_cases {sf : Flags} {sk : CompKind} {scs : List (Key × Node)} {o r : Node} {b : Bool}
+    (h : maybePromote sf sk scs o = .ok (r, b)) : r.flags = sf ∨ r.flags = { sf with safe := some false } := by
+  rw [maybePromote_flags h]; split
+  · exact .inl rfl
+  · exact promoted_cases _ _
 
 theorem leafRule_flags (s o : Node) : FlagsOfMerge s.flags o.flags (leafRule s o).1.flags := by
   unfold leafRule
   split
-  · exact .inl (by rw [propagate_flags, setFlags_flags])
-  · exact .inr (.inr (by rw [propagate_flags, setFlags_flags]))
+  · exact ⟨_, .inl rfl, .inl (by rw [propagate_flags, setFlags_flags])⟩
+  · exact ⟨_, .inr (.inr rfl), .inl (by rw [propagate_flags, setFlags_flags])⟩
 
 theorem finishMerge_flags {sf : Flags} {sk : CompKind} {scs : List (Key × Node)} {o r : Node} {b : Bool}
     (h : finishMerge sf sk scs o = .ok (r, b)) : FlagsOfMerge sf o.flags r.flags := by
@@ -34,12 +50,12 @@ theorem finishMerge_flags {sf : Flags} {sk : CompKind} {scs : List (Key × Node)
     · cases h
     · rename_i r' same hp
       cases h
-      exact .inr (.inl (by rw [propagate_flags, maybePromote_flags hp]))
+      exact ⟨_, .inr (.inl rfl), by rw [propagate_flags]; exact maybePromote_flags_cases hp⟩
   · split at h
     · cases h
     · rename_i r' same hp
       cases h
-      exact .inl (by rw [propagate_flags, maybePromote_flags hp])
+      exact ⟨_, .inl rfl, by rw [propagate_flags]; exact maybePromote_flags_cases hp⟩
 
 theorem compMerge_flags (rec : Node → Node → Except Err (Node × Bool)) {sf : Flags} {sk : CompKind}
     {scs : List (Key × Node)} {o r : Node} {b : Bool} (h : compMerge rec sf sk scs o = .ok (r, b)) :
@@ -49,7 +65,7 @@ theorem compMerge_flags (rec : Node → Node → Except Err (Node × Bool)) {sf 
     simp only [compMerge, Except.ok.injEq] at h
     have e1 : r = (leafRule (.comp sf sk scs) (.leaf of lk)).1 := by rw [h]
     subst e1
-    exact leafRule_flags _ _
+    exact leafRule_flags (.comp sf sk scs) (.leaf of lk)
   | comp of ok ocs =>
     simp only [compMerge] at h
     split at h
@@ -60,8 +76,7 @@ theorem compMerge_flags (rec : Node → Node → Except Err (Node × Bool)) {sf 
           · cases h
           · rename_i res sameAsOther hp
             cases h
-            refine .inr (.inr ?_)
-            rw [propagate_flags, maybePromote_flags hp]; rfl
+            exact ⟨_, .inr (.inr rfl), by rw [propagate_flags]; exact maybePromote_flags_cases hp⟩
       · split at h
         · cases h
         · exact finishMerge_flags h
@@ -90,9 +105,9 @@ theorem funcMerge_flags (rec : Node → Node → Except Err (Node × Bool)) {sf 
     split at h
     · split at h
       · split at h
-        · cases h; exact .inr (.inl (by rw [propagate_flags]; rfl))
-        · cases h; exact .inr (.inl (by rw [propagate_flags]; rfl))
-      · cases h; exact .inl (by rw [propagate_flags]; rfl)
+        · cases h; exact ⟨_, .inr (.inl rfl), .inl (by rw [propagate_flags]; rfl)⟩
+        · cases h; exact ⟨_, .inr (.inl rfl), .inl (by rw [propagate_flags]; rfl)⟩
+      · cases h; exact ⟨_, .inl rfl, .inl (by rw [propagate_flags]; rfl)⟩
     · exact compMerge_flags rec h
   | comp of ok ocs =>
     simp only [funcMerge] at h
@@ -100,7 +115,7 @@ theorem funcMerge_flags (rec : Node → Node → Except Err (Node × Bool)) {sf 
     · exact compMerge_flags rec h
     · split at h
       · split at h
-        · cases h; exact .inl (by rw [propagate_flags]; rfl)
+        · cases h; exact ⟨_, .inl rfl, .inl (by rw [propagate_flags]; rfl)⟩
         · exact compMerge_flags rec h
       · exact compMerge_flags rec h
 
@@ -134,6 +149,7 @@ structure Absorb (mk : Flags → Bool) : Prop where
   rs : ∀ a b : Flags, mk a = true ∨ mk b = true → mk (replaceSelfFlags a b) = true
   upd : ∀ (kw : ChildKw) (f : Flags), mk (updFlags kw f) = mk f
   prio : ∀ (x : Option Int) (f : Flags), mk { f with prio := x } = mk f
+  promo : ∀ (g : Flags), mk g = true → mk { g with safe := some false } = true
 
 /-- an explicit `safe=False` -/
 def markS (f : Flags) : Bool := f.safe == some false
@@ -149,6 +165,7 @@ theorem absorb_markS : Absorb markS where
     exact mergeSafe_safe_false h
   upd := fun _ _ => rfl
   prio := fun _ _ => rfl
+  promo := fun _ _ => rfl
 
 theorem absorb_markD : Absorb markD where
   ro := fun a b h => by
@@ -159,6 +176,7 @@ theorem absorb_markD : Absorb markD where
     rcases h with h | h <;> simp [markD, replaceSelfFlags, mergeSafe, h]
   upd := fun _ _ => rfl
   prio := fun _ _ => rfl
+  promo := fun _ h => h
 
 theorem markS_unsafe {f : Flags} (h : markS f = true) : eSafe f = false := by
   simp only [markS, beq_iff_eq] at h; simp [eSafe, h]
@@ -167,10 +185,15 @@ theorem markD_unsafe {f : Flags} (h : markD f = true) : eSafe f = false := by
 
 theorem flagsOfMerge_mark {mk : Flags → Bool} (hA : Absorb mk) {s o r : Flags} (h : FlagsOfMerge s o r)
     (hm : mk s = true ∨ mk o = true) : mk r = true := by
-  rcases h with rfl | rfl | rfl
-  · exact hA.ro _ _ hm
-  · exact hA.rs _ _ hm
-  · exact hA.ro _ _ hm.symm
+  obtain ⟨g, hg, hr⟩ := h
+  have hgm : mk g = true := by
+    rcases hg with rfl | rfl | rfl
+    · exact hA.ro _ _ hm
+    · exact hA.rs _ _ hm
+    · exact hA.ro _ _ hm.symm
+  rcases hr with rfl | rfl
+  · exact hgm
+  · exact hA.promo _ hgm
 
 theorem mergeF_mark {mk : Flags → Bool} (hA : Absorb mk) {fuel : Nat} {s o r : Node} {b : Bool}
     (h : mergeF fuel s o = .ok (r, b)) (hm : mk s.flags = true ∨ mk o.flags = true) : mk r.flags = true :=
